@@ -179,7 +179,18 @@ def string_dispatch(body, var):
     d = _dict_dispatch(body, var)
     if d is not None:
         return d
+    allowed = None   # keys admitted by an earlier `if var not in [...]: raise`
+    guard_body = None
+    merged, first = [], None
     for s in body:
+        if isinstance(s, ast.If) and isinstance(s.test, ast.Compare) and len(s.test.ops) == 1 and \
+                isinstance(s.test.ops[0], ast.NotIn) and norm(s.test.left) == var and \
+                isinstance(s.test.comparators[0], (ast.List, ast.Tuple, ast.Set)) and \
+                all(isinstance(e, ast.Constant) and isinstance(e.value, str) for e in s.test.comparators[0].elts) and \
+                s.body and isinstance(s.body[-1], ast.Raise) and not s.orelse and not merged:
+            allowed = [e.value for e in s.test.comparators[0].elts]
+            guard_body = s.body
+            continue
         if isinstance(s, ast.If):
             chain = []
             cur = s
@@ -197,7 +208,26 @@ def string_dispatch(body, var):
                 else_body = cur.orelse
                 break
             if ok and chain:
-                return chain, else_body, s
+                first = first or s
+                merged += chain
+                if else_body and isinstance(else_body[-1], ast.Raise):
+                    return merged, else_body, first
+                if else_body:
+                    # a final `else:` that computes something serves the one admitted key not yet tested
+                    rest = [k for k in (allowed or []) if k not in [c[0] for c in merged]]
+                    if len(rest) == 1:
+                        return merged + [(rest[0], else_body)], guard_body, first
+                    return merged, else_body, first
+                # no else: the chain may continue in a later statement when every branch left the function
+                if all(b and isinstance(b[-1], (ast.Return, ast.Raise)) for _, b in chain):
+                    continue
+                return merged, else_body, first
+            if merged:
+                break
+    if merged:
+        if allowed is not None and set(allowed) == {k for k, _ in merged}:
+            return merged, guard_body, first
+        return merged, [], first
     return None
 
 
